@@ -19,7 +19,9 @@ from fractions import Fraction
 from .. import algebra as A
 from .. import opmodel as O
 from .. import runmodel as R
+from .. import pcmodel as P
 from .. import sweep
+from .. import symeval as S
 
 # frozen exceptions: (kind, order) -> reason
 POWER_SUPPRESSED = {("FL", 0): "F_L vanishes at LO for massless quarks; the massive LO term is proportional to m^2/Q^2"}
@@ -227,6 +229,9 @@ def run(rep, proj, tier):
     rep.assumptions = ["heavy coefficient functions folded above threshold", "F_L(LO, massive) is proportional to m^2/Q^2 (Kretzer-Schienbein; gluck-ccheavy)"]
     check_levels(rep, proj)
     check_mass(rep, proj, tier)
+    # both sides of the limit are integrals of these kernels: a massive or asymptotic kernel that changes from one evaluation to the
+    # next (state kept in a captured container) makes the two sides incomparable whatever their first evaluation looks like
+    P.check_pure(rep, proj, "C08.pure", family_filter=lambda c: ".heavy." in c.fq or ".asy." in c.fq or ".intrinsic." in c.fq, floor=60)
     js = jobs(tier)
     outs = sweep.run_cells(_job, js)
     n_cmp = 0
